@@ -449,11 +449,61 @@ func genClaIn(r *vlib.Rand, nWorlds int) ClaIn {
 	return ci
 }
 
+const findingEmptyAddr = "empty-addresses-endpoint-panics-eds"
+
+// malformed stream: an endpoint without any address (IstioEndpoint.Addresses empty).  No in-tree
+// registry builds one (kube, ServiceEntry/WorkloadEntry and memory registries always set exactly one
+// address, possibly ""), but XDSUpdater.EDSUpdate accepts it and the index stores it.
+func runMalformed(w world, multiNetworkRemote bool) (panicked bool, msg string, served int) {
+	hostname := hostGlobal
+	svc := &model.Service{Hostname: host.Name(hostname), Resolution: model.ClientSideLB,
+		Attributes: model.ServiceAttributes{Name: "svc", Namespace: "ns1", Labels: map[string]string{}},
+		Ports:      model.PortList{{Name: "p1", Port: 80, Protocol: protocol.HTTP}}}
+	good := EP{Wl: 1, Addr: 1, Port: 1, EPort: 8080, Net: 1, Cluster: 1, Loc: 1, TLS: true}.real()
+	bad := EP{Wl: 1, Addr: 2, Port: 1, EPort: 8080, Net: 1, Cluster: 1, Loc: 1, TLS: true}.real()
+	bad.Addresses = nil
+	if multiNetworkRemote {
+		bad.Network = "n2"
+	}
+	idx := model.NewEndpointIndex(model.DisabledCache{})
+	idx.UpdateServiceEndpoints(SKey{1, 1}.real(), hostname, "ns1", []*model.IstioEndpoint{good, bad}, false)
+	proxy := &model.Proxy{Type: model.SidecarProxy, ID: "app.ns1", ConfigNamespace: "ns1", DNSDomain: "ns1.svc.cluster.local",
+		Metadata: &model.NodeMetadata{Namespace: "ns1", Network: "n1", ClusterID: "c1"}}
+	proxy.SetSidecarScope(w.push)
+	cn := model.BuildSubsetKey(model.TrafficDirectionOutbound, "", host.Name(hostname), 80)
+	b := endpoints.NewCDSEndpointBuilder(proxy, w.push, cn, model.TrafficDirectionOutbound, "", host.Name(hostname), 80, svc, nil)
+	panicked, msg = vlib.Recover(func() {
+		cla := b.BuildClusterLoadAssignment(idx)
+		for _, l := range cla.Endpoints {
+			served += len(l.LbEndpoints)
+		}
+	})
+	return
+}
+
+func genMalformed(c *vlib.Collector, worlds []world, id *int) {
+	for i, wi := range []int{0, 1} {
+		*id++
+		if !c.Wanted(*id) {
+			continue
+		}
+		pan, msg, served := runMalformed(worlds[wi], i == 1)
+		c.Tag("malformed-empty-addresses")
+		c.Extra[fmt.Sprintf("malformed_empty_addresses_world%d", wi)] = map[string]any{"panicked": pan, "message": msg, "served": served}
+		if pan {
+			c.Violate(vlib.Violation{ID: *id, Kind: "panic", Finding: findingEmptyAddr,
+				Detail: "BuildClusterLoadAssignment on a stored endpoint with empty Addresses: " + msg,
+				Case:   map[string]any{"world": wi, "endpoint": "Addresses=nil, ServicePortName=p1, EndpointPort=8080"}})
+		}
+	}
+}
+
 func genCla(t *testing.T, c *vlib.Collector, seed uint64, id *int) {
 	var worlds []world
 	for _, g := range worldGWs {
 		worlds = append(worlds, buildWorld(t, g))
 	}
+	genMalformed(c, worlds, id)
 	root := vlib.NewRand(seed ^ 0xc13c)
 	n := vlib.Scale(700, 20000)
 	emit := func(ci ClaIn, extra ...string) {
